@@ -42,6 +42,9 @@ CHECKS = {
  "C15": ("proof", "abstract interpretation of the byte emitters over symbolic 64-bit inputs in exact domains (bit vectors with named input bits; linear forms mod 2^k; wrapped interval sets for the distance guard), path enumeration, callee inlining; instruction-form matching against hand-written encodings",
          "Proves for ALL 2^64 destinations (and sources) that each emitter yields the intended instruction form with every address lane placed once, that the rel32 displacement is dest−src−5 mod 2^32, and that the set of distances for which the relative form is chosen is contained in the set where that displacement fits — the exact boundary, including negation overflow. Proof is by exhaustive symbolic evaluation, not sampling; what the CPU does with the bytes is taken from the ISA manuals (trusted base).",
          "Trusted base listed in the evidence file: go/ssa construction, the abstract transfer functions, encodings of 7 instruction forms, little-endian host for the uint32 store."),
+ "C11": ("other", "global-state inventory + lock-set analysis: per-instruction definitely-held locks (dataflow over Lock/Unlock incl. one-line lock()/unlock() wrappers, defers keep the lock), interprocedural callers-hold fix-point over the module call graph from the public API, classification guarded / atomic-only / sync.Once-initialised / listed configuration",
+         "Decides, for every interleaving, that each package-level variable written after init is protected by one named lock on all API-reachable call paths (or atomic / once-initialised / a listed switch), that raw text access and mprotect run under the memory lock in the right mode, and that every entry-jump write runs under the patch lock. Does not decide races on user objects shared by misuse, nor atomicity of a multi-byte code write against threads executing those bytes.",
+         "Trusted: go/ssa; sync.Mutex/RWMutex/Once semantics; nine listed configuration variables with reasons (logger switches, symTable pair, decoder debug switch); quick tier analyses linux/amd64, thorough adds linux/arm64 (one known finding there)."),
 }
 NA = {}
 PENDING_REASON = "check not built yet in this revision (planned per DESIGN.md section 3); not claimed until it runs"
